@@ -224,7 +224,8 @@ next:
 	}
 out:
 	if (ep != NULL) {
-		*ep = (char*)(fp + 1);
+		/* never step over the terminating NUL (format ending in `%') */
+		*ep = (char*)(fp + (*fp != '\0'));
 	}
 	return res;
 }
